@@ -20,18 +20,20 @@ CLAIMED = {
                 text="Necessary conditions of write/re-parse agreement decided on the code's shape: magic code spelled identically in "
                      "writer, cif_parse and parser; every emitting function of ciffile.c stores last_column after every emission on "
                      "every success path and every length-limited primitive compares it with the 2048 limit before emitting "
-                     "(path-universal dataflow); delimiter choice has a single source. Round-trip equality is not decided.",
+                     "(path-universal dataflow); delimiter choice has a single source. Round-trip equality is not decided. "
+                     "Also: with write_char's arguments substituted, the writers' indexes into the analysed text stay within it and their success tests are satisfiable; magic comparisons use the full code for '== 0' and the version-independent prefix for '!= 0'.",
                 note=TB + "; ICU u_fprintf/u_fputc return conventions (count written / character written)",
-                tech="table agreement + emission/accounting typestate dataflow + who-may-call on the call graph"),
+                tech="table agreement + emission/accounting typestate dataflow + who-may-call on the call graph; inter-procedural linear substitution of call arguments"),
     "C03": dict(level="other", ref="5 C03",
                 text="Structural form of the error-callback contract, path-universal over all 50 callback sites of the parser and up the "
                      "call chain: a non-zero callback result (or failing callee result) reaches a return of that very value with no "
                      "further scanning, storing or callback; positive codes originate only from resource/internal conditions; every "
                      "input-defect code a library call may return is routed to the callback or frozen in a cannot-occur table with "
-                     "its reason. Termination, memory safety on arbitrary bytes and post-abort consistency are not decided.",
+                     "its reason. Termination, memory safety on arbitrary bytes and post-abort consistency are not decided. "
+                     "Also (termination/bounds, necessary conditions only): no loop of the parser units is idempotent, and no read-buffer pointer is dereferenced under '<=' against an exclusive end.",
                 note=TB + "; flow-insensitive may-return-code summaries (over-approximate); the cannot-occur table was triaged by reading "
                      "each call site; 5 genuine defects are recorded as known findings",
-                tech="verdict-propagation typestate dataflow + may-return-code summaries over the call graph"),
+                tech="verdict-propagation typestate dataflow + may-return-code summaries over the call graph; natural-loop read/write analysis"),
     "C04": dict(level="other", ref="5 C04",
                 text="The schema and statement layer the data model rests on: SQLite's own parser run on the embedded DDL and on all "
                      "embedded statements (compiling program text in an empty in-memory database, not running cif_api) yields keys, "
@@ -58,18 +60,20 @@ CLAIMED = {
                 text="Agreement of the two hand-written codecs: each value field is read (GET_VALUE_PROPS) from the column it is bound to "
                      "(SET_VALUE_PROPS) for every writer x reader statement, resolved through the statements' own column lists; "
                      "serialise/deserialise pairs move the same width sequences and nest the same codecs; table flags agree; "
-                     "SQLITE_STATIC binds outlive the step; buffer primitives clamp. Equality of round-tripped values is not decided.",
+                     "SQLITE_STATIC binds outlive the step; buffer primitives clamp. Equality of round-tripped values is not decided. "
+                     "Also: no storage loop is idempotent (the buffer-growth loop advances); an attribute read back from storage is not overwritten by a later callee's constant store (mod-set summaries).",
                 note=TB + "; SQLite as parser of the embedded SQL",
-                tech="writer/reader table extraction from macro expansions in the AST + agreement checks"),
+                tech="writer/reader table extraction from macro expansions in the AST + agreement checks; loop-carried-state analysis + last-store mod-set summaries over the call graph"),
     "C08": dict(level="other", ref="5 C08",
                 text="Necessary conditions of buffer-boundary independence decided on the scanner's code: may-dataflow over every function "
                      "of parser.c showing that no local derived from the scan window is read after a (transitive) call to "
                      "get_more_chars without being re-derived; every end-of-line branch of the scanners performs the line accounting "
                      "or un-reads the character, and the copies of the accounting agree; get_more_chars re-bases all window pointers "
                      "when it moves data and decrements the character count once per folded CR LF pair. Value-level arithmetic of the "
-                     "folding and alignment independence in general are not decided.",
+                     "folding and alignment independence in general are not decided. "
+                     "Also: per-character scan state is not reset on the refill path; every character delivered by the character source is accounted in buffer_limit; a CR ending a read is remembered in the scanner.",
                 note=TB + "; functions that may refill = transitive callers of get_more_chars within parser.c",
-                tech="staleness may-dataflow + must-pass-through / pairing queries on CFGs"),
+                tech="staleness may-dataflow + must-pass-through / pairing queries on CFGs; loop nesting + upward-exposed-use analysis"),
     "C09": dict(level="other", ref="5 C09",
                 text="Who-may-reach rule over the resolved program: every string reaching a key position (a `name` column of an embedded "
                      "statement, or a uthash key) is normaliser output, a field whose stores are all normaliser output, or an "
@@ -89,78 +93,87 @@ CLAIMED = {
     "C11": dict(level="other", ref="5 C11",
                 text="Narrow structural claim: the dialect-selecting magic code agrees in all places where it is emitted or compared "
                      "(incl. the common 7-character prefix), and CIF_WRONG_ENCODING / the BOM CIF_DISALLOWED_CHAR / SET_V1 sit exactly "
-                     "under their version guards. The option x leading-bytes decision table needs evaluation on data: not decided.",
+                     "under their version guards. The option x leading-bytes decision table needs evaluation on data: not decided. "
+                     "The comparison polarity rule: a '!= 0' test ('no magic code of any version') compares only the version-independent prefix.",
                 note=TB,
-                tech="constant-table agreement + guard-edge dominance on the CFG"),
+                tech="constant-table agreement + guard-edge dominance on the CFG; comparison-polarity check"),
     "C12": dict(level="other", ref="5 C12",
                 text="Agreement of three finite tables (codes that can reach the callback incl. case labels guarding variable codes; the "
                      "parser's documented recovery table read from parser.c; the 26 defect classes of the property) plus, per documented "
                      "row, a CFG check that accepting the error consumes the offending token ('drop/ignore' rows) or leaves it "
                      "('assume the missing ...' rows). Reported positions and exact recovered content are not decided; C03 R1/R2 "
-                     "(verdict propagation, routing) are prerequisites checked under C03.",
+                     "(verdict propagation, routing) are prerequisites checked under C03. "
+                     "Also: the over-length test allows for a terminator already counted in the column (must-dataflow), and every hand-written move of next_char has the matching column change.",
                 note=TB + "; the recovery table in parser.c's documentation comment is the oracle for actions",
-                tech="table agreement + must/may token-consumption queries on CFGs"),
+                tech="table agreement + must/may token-consumption queries on CFGs; must-fact dataflow for column/terminator accounting"),
     "C13": dict(level="other", ref="5 C13",
                 text="In CIF 1.1 mode every CIF-supplied string reaching the output stream has passed cif_validate_cif11_characters "
                      "with CIF_OK on every path (who-may-emit closure over text-forwarding writers + per-variable must-validate "
                      "dataflow with the mode as status variable); lists/tables/triple quotes/delimiter-containing text fields are "
-                     "refused; the validator's table is the CIF 1.1 character set and is indexed within bounds.",
+                     "refused; the validator's table is the CIF 1.1 character set and is indexed within bounds. "
+                     "Also: the analyser statistic behind the text-field refusal (contains_text_delim) is accumulated monotonically.",
                 note=TB + "; write_context_t.version is constant during a write (checked: stored only by cif_write); one named "
                      "exemption: text of unquoted numbers",
-                tech="typestate dataflow (validated-set) + forwarder summaries + guard dominance + table agreement"),
+                tech="typestate dataflow (validated-set) + forwarder summaries + guard dominance + table agreement; monotone-update check"),
     "C14": dict(level="other", ref="5 C14",
                 text="Finite-domain abstract interpretation of cif_walk and its five helpers: every handler call and child walk is split "
                      "into six answer classes (CONTINUE, SKIP_CURRENT, SKIP_SIBLINGS, END, positive, other negative), flags record the "
                      "answers, and reachability of callback sites under the flags decides the directive obligations; a run with all "
                      "handlers continuing decides start/children/end order (frames before loops); handle arrays and elements are "
-                     "released on every path. That the SQL enumerations yield each element once is not decided.",
+                     "released on every path. That the SQL enumerations yield each element once is not decided. "
+                     "Also: a child's SKIP_CURRENT is followed by the same callback sites as its CONTINUE.",
                 note=TB + "; a child walk is assumed to return any answer class (each helper is checked under that assumption); absent "
                      "handlers are outside the property",
-                tech="finite-domain abstract interpretation (exhaustive) + must-pass-through release checks"),
+                tech="finite-domain abstract interpretation (exhaustive) + must-pass-through release checks; answer-indexed reachability sets"),
     "C15": dict(level="other", ref="5 C15",
                 text="Context-sensitive abstract interpretation of the parser productions over the skip depth (interval domain; contexts "
                      "= nullness of storage parameters x entry depth, discovered from parse_cif in storing and syntax-only mode): "
                      "every handler / keyword / data-name callback and every storing call is reached only with depth <= 0; the "
                      "reachable callback sites do not depend on the presence of a target CIF; each production honours its depth "
-                     "contract; depth stores have the directive-driven form. Document order and callback arguments are not decided.",
+                     "contract; depth stores have the directive-driven form. Document order and callback arguments are not decided. "
+                     "Also: no bookkeeping variable that decides an error report is assigned only under one outcome of a skip_depth test (skipping does not alter syntax checking).",
                 note=TB + "; depth contract of parse_loop_packets assumed (loop-carried pairing keyed on column_index), handlers "
                      "cannot modify the scanner",
-                tech="context-sensitive interval abstract interpretation over clang CFGs (assume-guarantee contracts per production)"),
+                tech="context-sensitive interval abstract interpretation over clang CFGs (assume-guarantee contracts per production); edge-dominance non-interference check"),
     "C16": dict(level="other", ref="5 C16",
                 text="Four rule groups over all units: ownership typestate (per-function dataflow with aliases, allocator/release/transfer "
                      "summary tables: every object a function acquires is released or handed over exactly once on every path; no double "
                      "release or use after release); bounds idioms (index bound larger than the array, free() of pointer arithmetic); "
                      "process-wide state (path-sensitive setlocale save/restore, no fenv/env/signal calls); unbounded signed decimal "
                      "accumulation and kind-before-fields. Absence of undefined behaviour in general (value ranges of all arithmetic, "
-                     "array *elements*, SQLite/ICU internals) is not decided.",
+                     "array *elements*, SQLite/ICU internals) is not decided. "
+                     "Also: key/key_orig aliasing discipline at every free; allocation extent vs constant-offset index; realloc growth increment >= 1 (interval evaluation); exclusive-end guards; no pointer field freed while the kind that owns it stays set.",
                 note=TB + "; frozen allocator table (own.ALLOC_OUT, 44 entries), 4 named exemptions (DESERIALIZE macro family, parse_table's "
                      "dead allocating arm); linked-list / hash / array elements are outside the alias model; 3 genuine defects are "
                      "recorded as known findings",
-                tech="ownership typestate dataflow + idiom lints over the AST + path-sensitive typestate for setlocale"),
+                tech="ownership typestate dataflow + idiom lints over the AST + path-sensitive typestate for setlocale; linear-form and interval evaluation of size/index expressions"),
     "C17": dict(level="other", ref="5 C17",
                 text="Structural necessary conditions of graceful failure under memory exhaustion over ~100 allocation sites: every "
                      "allocation result is NULL-tested on every path before it is dereferenced or copied into (must-fact dataflow per "
                      "site); a positive callee result that may be CIF_MEMORY_ERROR is never followed by `return CIF_OK` unrecorded; "
                      "ownership typestate restricted to paths through a failed allocation (clean-up ladders); no exit leaves a "
-                     "transaction open. SQLite's/ICU's own OOM behaviour and 'the same call succeeds when repeated' are not decided.",
+                     "transaction open. SQLite's/ICU's own OOM behaviour and 'the same call succeeds when repeated' are not decided. "
+                     "Also: after v->kind = K no failure path frees K's fields and returns with the kind still set.",
                 note=TB + "; may-return-code summaries decide which callees can report memory failure",
-                tech="must-fact dataflow per allocation site + dropped-failure typestate + ownership typestate on OOM paths"),
+                tech="must-fact dataflow per allocation site + dropped-failure typestate + ownership typestate on OOM paths; kind/field release ordering on CFGs"),
     "C18": dict(level="other", ref="5 C18",
                 text="Exhaustive agreement of finite tables: the special-character sets of cif_analyze_string, cif_value_set_quoted and "
                      "cif_is_reserved_string equal the scanner's token-ending / token-starting classes; reserved words agree with "
                      "next_token; the analyser's length margins equal the writer's delimiter overheads and its delim_length values are "
-                     "the writer's case labels. Read-back of each recommended form is not decided.",
+                     "the writer's case labels. Read-back of each recommended form is not decided. "
+                     "Also: guards on the way to recommending delimiter D test evidence about D only; whole-string statistics are accumulated monotonically.",
                 note=TB,
-                tech="constant/operand extraction from ASTs + table agreement"),
+                tech="constant/operand extraction from ASTs + table agreement; edge-dominance evidence check"),
     "C19": dict(level="other", ref="5 C19",
                 text="Structural contracts of value objects: escape analysis with call-graph summaries shows that no storing entry point "
                      "lets a source argument (or a pointer read out of it) be stored into the heap - stored copies share no storage "
                      "with the caller's objects; every (re)initialiser cleans its target before storing into it and cif_value_clean "
                      "always ends in kind = CIF_UNK_KIND; list/table accessors test kind and index (with the right comparison) "
                      "before touching members and return the documented codes; the list grows before a slot beyond its capacity is "
-                     "written. Structural equality of clones and map semantics under key variants are not decided.",
+                     "written. Structural equality of clones and map semantics under key variants are not decided. "
+                     "Also: realloc growth increment >= 1; replacing or releasing one of an entry's key/key_orig never frees the allocation the other still uses.",
                 note=TB + "; 3 documented ownership-transfer exemptions (init_char text, parse_numb text, create_norm names)",
-                tech="escape (no-alias) analysis with interprocedural summaries + must-call-before / guard dominance on CFGs"),
+                tech="escape (no-alias) analysis with interprocedural summaries + must-call-before / guard dominance on CFGs; interval evaluation; alias-pair free discipline"),
     "C20": dict(level="proof", ref="5 C20",
                 text="Exhaustive comparison of the finite set of result-code macros of cif.h with the positional cif_errlist "
                      "initialiser and cif_nerr, read from the AST; complete for this property.",
